@@ -190,6 +190,8 @@ def check_property(prop, cs, args, seed, lock, write_lock=False):
             except Exception:
                 extra["failures"].append({"name": "%s/extra-check-crash" % c.name, "detail": traceback.format_exc(), "crash": True})
 
+    for u in extra.get("undecided", []):
+        structural.append({"contract": u["contract"], "mode": "capture", "error": u["message"], "kind": "unsupported"})
     groups = sorted({ob["group"] for ob in obligations})
     by_group_owner = {}
     cgroup_of = {c.name: c.group for c in mine}
